@@ -7,6 +7,9 @@ package harness
 // has certainly been reached (immediate flush) and bounds the time-based flush.
 
 import (
+	"sort"
+	"log/slog"
+	"os"
 	"context"
 	"encoding/json"
 	"fmt"
@@ -115,7 +118,56 @@ type c10Model struct {
 	partRows    map[string]int
 	partBytes   map[string]int
 	batches     []*WBatch
+	contrib     []c10Contrib // per batch, same order as batches
 	multiPart   bool
+}
+
+// c10Contrib is what one batch adds to the buffer (bytes = marshaled length
+// without length prefixes).
+type c10Contrib struct {
+	rows, bytes int
+	partRows    map[string]int
+	partBytes   map[string]int
+}
+
+func (m *c10Model) add(b *WBatch, ct c10Contrib) {
+	m.batches = append(m.batches, b)
+	m.contrib = append(m.contrib, ct)
+	m.rows += ct.rows
+	m.bytes += ct.bytes
+	for p, n := range ct.partRows {
+		m.partRows[p] += n
+	}
+	for p, n := range ct.partBytes {
+		m.partBytes[p] += n
+	}
+	if len(ct.partRows) >= 2 {
+		m.multiPart = true
+	}
+}
+
+// trigger says which limit the modelled buffer has certainly reached ("" = none).
+func (m *c10Model) trigger(c c10Case) string {
+	if m.rows >= c.BufRows {
+		return fmt.Sprintf("buffered rows %d >= MaxBufferedRows %d", m.rows, c.BufRows)
+	}
+	if m.bytes >= c.BufBytes {
+		return fmt.Sprintf("buffered bytes %d >= MaxBufferedBytes %d", m.bytes, c.BufBytes)
+	}
+	ps := make([]string, 0, len(m.partRows))
+	for p := range m.partRows {
+		ps = append(ps, p)
+	}
+	sort.Strings(ps)
+	for _, p := range ps {
+		if n := m.partRows[p]; n >= c.RGRows {
+			return fmt.Sprintf("partition %q rows %d >= MaxRowGroupRows %d", p, n, c.RGRows)
+		}
+		if m.partBytes[p] >= c.RGBytes {
+			return fmt.Sprintf("partition %q bytes %d >= MaxRowGroupBytes %d", p, m.partBytes[p], c.RGBytes)
+		}
+	}
+	return ""
 }
 
 func newC10Model() *c10Model {
@@ -142,6 +194,9 @@ func runC10Once(c c10Case) (*Violation, bool, bool) {
 	}
 	ds := NewMemDataStore(false)
 	ms := bs.NewMemoryMetaStore()
+	if os.Getenv("VERIF_DEBUG") != "" {
+		cfg.Logger = slog.New(slog.NewTextHandler(os.Stderr, &slog.HandlerOptions{Level: slog.LevelDebug}))
+	}
 	eng, err := bs.NewBloomSearchEngine(cfg, ms, ds)
 	if err != nil {
 		return violf("config rejected: %v", err), false, false
@@ -165,6 +220,7 @@ func runC10Once(c c10Case) (*Violation, bool, bool) {
 	m := newC10Model()
 	id := 0
 	nonTimeMulti, timeMulti := false, false
+	staleResync := false
 	type pend struct {
 		b        *WBatch
 		accepted time.Time
@@ -210,7 +266,7 @@ func runC10Once(c c10Case) (*Violation, bool, bool) {
 			continue
 		}
 		b := book.NewBatch("good", "unbuf", 0, 1)
-		parts := map[string]bool{}
+		ct := c10Contrib{partRows: map[string]int{}, partBytes: map[string]int{}}
 		for _, r := range bt.Rows {
 			id++
 			row := map[string]any{"id": id, "p": partOf(r)}
@@ -220,40 +276,40 @@ func runC10Once(c c10Case) (*Violation, bool, bool) {
 			b.Rows = append(b.Rows, row)
 			jb, _ := json.Marshal(row)
 			p := partOf(r)
-			parts[p] = true
-			m.rows++
-			m.bytes += len(jb)
-			m.partRows[p]++
-			m.partBytes[p] += len(jb)
-		}
-		if len(parts) >= 2 {
-			m.multiPart = true
+			ct.rows++
+			ct.bytes += len(jb)
+			ct.partRows[p]++
+			ct.partBytes[p] += len(jb)
 		}
 		if err := eng.IngestRows(bg, b.Rows, b.Ch); err != nil {
 			return violf("IngestRows: %v", err), false, false
 		}
 		b.Accepted = true
-		m.batches = append(m.batches, b)
+		m.add(b, ct)
 		pending = append(pending, pend{b, time.Now()})
 		// has a limit certainly been reached? (byte obligations use the marshaled
 		// length WITHOUT the 4-byte prefix, so any reasonable accounting agrees)
-		trigger := ""
-		if m.rows >= c.BufRows {
-			trigger = fmt.Sprintf("buffered rows %d >= MaxBufferedRows %d", m.rows, c.BufRows)
-		} else if m.bytes >= c.BufBytes {
-			trigger = fmt.Sprintf("buffered bytes %d >= MaxBufferedBytes %d", m.bytes, c.BufBytes)
-		} else {
-			for p, n := range m.partRows {
-				if n >= c.RGRows {
-					trigger = fmt.Sprintf("partition %q rows %d >= MaxRowGroupRows %d", p, n, c.RGRows)
-				} else if m.partBytes[p] >= c.RGBytes {
-					trigger = fmt.Sprintf("partition %q bytes %d >= MaxRowGroupBytes %d", p, m.partBytes[p], c.RGBytes)
-				}
-			}
-		}
+		trigger := m.trigger(c)
 		if trigger != "" {
 			if missing := waitAll(m.batches, allowance); missing != nil {
-				return violf("after batch %d: %s, but batch #%d was not answered within %v without Flush/Stop (MaxBufferedTime %v, compression %s)", bi, trigger, missing.N, allowance, cfg.MaxBufferedTime, c.Comp), true, false
+				// The model may be stale: the engine may have flushed earlier batches
+				// (its own byte accounting includes length prefixes, and a time-based
+				// flush can land between two harness steps) without the harness having
+				// seen the answers yet. A flush takes everything buffered, so the
+				// batches that are STILL unanswered are certainly all in the engine's
+				// current buffer: the obligation is re-derived from them alone.
+				sub := newC10Model()
+				for i, mb := range m.batches {
+					if !answered(mb) {
+						sub.add(mb, m.contrib[i])
+					}
+				}
+				if t2 := sub.trigger(c); t2 != "" {
+					return violf("after batch %d: %s (counting only the %d batches that are still unanswered), but batch #%d was not answered within %v without Flush/Stop (MaxBufferedTime %v, compression %s)", bi, t2, len(sub.batches), missing.N, allowance, cfg.MaxBufferedTime, c.Comp), true, false
+				}
+				staleResync = true
+				m = sub
+				continue
 			}
 			if m.multiPart {
 				nonTimeMulti = true
@@ -290,6 +346,9 @@ func runC10Once(c c10Case) (*Violation, bool, bool) {
 		if len(m.batches) >= 2 {
 			timeMulti = true
 		}
+	}
+	if staleResync {
+		Ev.Class("model-was-stale(resynced-from-unanswered-batches)")
 	}
 	return nil, false, nonTimeMulti || timeMulti
 }
